@@ -122,6 +122,10 @@ def Rz(t):
     return np.array([[math.cos(t), -math.sin(t), 0], [math.sin(t), math.cos(t), 0], [0, 0, 1.0]])
 
 
+NEIGHBOURS = [(4e-5, -3e-5, 0.0, 0.0), (-4e-5, 4e-5, 0.0, 0.0), (3e-6, 2e-6, 0.0, 0.0), (-2e-7, 3e-7, 0.0, 0.0),
+              (0.0, 0.0, 3e-5, 0.0), (0.0, 0.0, -2e-7, 0.0), (0.0, 0.0, 0.0, 1e-5)]
+
+
 def solve(mod, solver, gw, twoth, chi, wedge):
     import numpy as np
     if solver == "plain":
@@ -172,6 +176,13 @@ def worker(x):
                 gw = Om.T.dot(glab)
                 om0, eta0 = a2(cs["om"]), a2(cs["eta"])
                 scale = 1.0 if modname == "tools" else 3.7
+                # near-neighbour requests first (a refinement step away in the tilts, the Bragg angle or g): their answers are
+                # thrown away; a solver that keeps anything keyed by rounded arguments answers the judged call from the neighbour
+                for (d1, d2, dt, dg) in NEIGHBOURS:
+                    try:
+                        solve(mod, solver, gw * scale * (1.0 + dg), twoth + dt, chi + d1, wedge + d2)
+                    except Exception:
+                        pass
                 oms, etas = solve(mod, solver, gw * scale, twoth, chi, wedge)
                 n += 1
                 tag2 = tag + " eta=%.5f omega=%.5f" % (eta0, om0)
